@@ -120,10 +120,10 @@ PROPS["C07"] = dict(
 
 PROPS["C09"] = dict(
     pkg="./props/c09_hedge",
-    tests=[REGRESS(), T("TestHedge", (8, 1200), (16, 20000)), T("TestHedgeRounds", (4, 400), (8, 6000)), T("TestHedgeInnerTimeout", (2, 300), (4, 5000)), T("TestClassifyDeepEqual", (2, 3000), (4, 50000), pkg="./props/c12_classify", env={"VERIF_DEEP_CARRIER": "hedge"})],
+    tests=[REGRESS(), T("TestHedge", (8, 1200), (16, 20000)), T("TestHedgeRounds", (4, 400), (8, 6000)), T("TestHedgeFinalPathRounds", (2, 600), (4, 10000)), T("TestHedgeInnerTimeout", (2, 300), (4, 5000)), T("TestClassifyDeepEqual", (2, 3000), (4, 50000), pkg="./props/c12_classify", env={"VERIF_DEEP_CARRIER": "hedge"})],
     replay_reps=300,
     require_classes=["final-path=true", "overlapped=true"],
-    rule="(cancel predicate variants: attempts with acceptable results leaving it together; 300 us to reject a result) (TestHedgeInnerTimeout: Hedge(Timeout(fn)) where the first attempt runs into its own Timeout -- a result the cancel condition rejects, recorded on the execution the attempts share --, the second attempt then wins and a third is still running: it must have been cancelled at the return; judged only when the schedule was met) (TestClassifyDeepEqual, from the C12 harness: CancelOnResult with values for which deep equality and identity differ -- pointers, slices, maps, structs holding pointers -- a separately built equal outcome is delivered without a hedge, an unequal one lets the hedge run) one scenario in four goes on using the builder (more hedges, another listener) after the policy under test was built; placements include a Timeout between the hedge policy and the function; rapid-generated hedged executions: maxHedges 0..4, a generated delay per hedge from {0, 0.2, 1, 3, 5 ms, 1 h}, cancel conditions {default, CancelOnResult, CancelOnErrors, CancelIf}, an outcome per attempt (assigned by order of entry), placements {alone, inside retry, inside a never-firing timeout, inside a fallback}, sync/async; gated mode: every attempt parks on a harness channel and is released in a generated permutation (exact step oracle); auto mode: attempts last a generated 0..8 ms or until cancelled and race with the hedge timers (race-agnostic log oracle); non-trivial = at least 2 attempts overlapped and (the winner was not the first attempt or the all-finished path delivered the result); distinct = the scenario",
+    rule="(TestHedgeFinalPathRounds: the all-attempts-finished path when the function runs more often within one execution than a hedged execution has attempts: Retry(Hedge) with 1..3 rounds whose attempts all fail with an error the hedge does not accept, then a round of values it does not accept either, or one it does -- every round ends once its attempts have finished, none starts more than maxHedges+1, the caller's value comes from the last round and not before all its attempts finished; Hedge(Retry) where every attempt runs the function several times and ends unacceptable -- the result is due only after OnHedge was called maxHedges times and the hedge delays have elapsed) (outcomes include an error of the attempt's own that wraps context.Canceled: nobody cancelled that attempt, its result counts like any other) (cancel predicate variants: attempts with acceptable results leaving it together; 300 us to reject a result) (TestHedgeInnerTimeout: Hedge(Timeout(fn)) where the first attempt runs into its own Timeout -- a result the cancel condition rejects, recorded on the execution the attempts share --, the second attempt then wins and a third is still running: it must have been cancelled at the return; judged only when the schedule was met) (TestClassifyDeepEqual, from the C12 harness: CancelOnResult with values for which deep equality and identity differ -- pointers, slices, maps, structs holding pointers -- a separately built equal outcome is delivered without a hedge, an unequal one lets the hedge run) one scenario in four goes on using the builder (more hedges, another listener) after the policy under test was built; placements include a Timeout between the hedge policy and the function; rapid-generated hedged executions: maxHedges 0..4, a generated delay per hedge from {0, 0.2, 1, 3, 5 ms, 1 h}, cancel conditions {default, CancelOnResult, CancelOnErrors, CancelIf}, an outcome per attempt (assigned by order of entry), placements {alone, inside retry, inside a never-firing timeout, inside a fallback}, sync/async; gated mode: every attempt parks on a harness channel and is released in a generated permutation (exact step oracle); auto mode: attempts last a generated 0..8 ms or until cancelled and race with the hedge timers (race-agnostic log oracle); non-trivial = at least 2 attempts overlapped and (the winner was not the first attempt or the all-finished path delivered the result); distinct = the scenario",
     assumptions=["attempts are identified by order of entry; spacing is a lower bound on order statistics of the entries and on the OnHedge calls",
                  "a cancel-matching result that loses the hand-off to the final result of the last attempt is accepted when all attempts have finished (DESIGN.md L8)",
                  "timing assertions are lower bounds only; 'does not return' is observed for 0.3 ms, 'returns' is awaited for 30 s"],
